@@ -487,6 +487,8 @@ def judge_hash_log(mon, lm, label):
 
 def _model(case):
     lm = LM.make_hashlm(case["lm"])
+    if (case.get("seed", 0) + case.get("V", 0)) % 3 == 0:
+        lm.inplace_state = True  # the model updates the state dictionary it is handed in place
     N = case["batch"]
     n_el = 1 if N is None else N
     cond = case["cond"]
